@@ -298,12 +298,9 @@ EasyC(tv) == LET W == {v \in Vis : Compat(v, tv)} IN
   ELSE {C(o, <<AV(a)>>, NoAt, 0) : o \in Pick(Ops \cap ({"Neg", "Abs", "Sign", "Identity"} \cup IF D(tv) = "f32" THEN {"Relu"} ELSE {})), a \in Pick(W)}
        \cup {C(q[1], <<AV(q[2]), AL(q[3])>>, NoAt, 0) : q \in Pick({q \in (Ops \cap {"Add", "Sub", "Mul", "Max", "Min"}) \X W \X DOMAIN L : q[3] \in SLits(D(q[2]))})}
 \* ONNX shape inference of an If / Loop / Scan node runs over its body: it gives up (no types on the node's outputs) when the
-\* body - at any depth - holds a function-call node (no schema) or a Constant whose reference attribute was dropped
+\* body - at any depth - holds a function-call node (an operator without schema)
 RECURSIVE Opaque(_)
-Opaque(ss) == \E i \in 1..Len(ss) :
-                 \/ ss[i].kind = "call"
-                 \/ (ss[i].kind = "inline" /\ ss[i].amode = "omit" /\ Funcs[ss[i].fn].hasattr /\ Dev("inline_default_attr_dropped"))
-                 \/ \E j \in 1..Len(ss[i].subs) : Opaque(ss[i].subs[j].body)
+Opaque(ss) == \E i \in 1..Len(ss) : ss[i].kind = "call" \/ \E j \in 1..Len(ss[i].subs) : Opaque(ss[i].subs[j].body)
 \* NOTE (TLC): a LET directly inside an action formula is re-evaluated at every use; the new state is therefore computed
 \* by state-level operators (XxxNew, LETs cached) and bound once with  \E n \in {XxxNew(..)}.
 CallOpNew(c, os) ==
